@@ -242,6 +242,11 @@ fn check_unsized(seed: u64, rounds: u64, out: &mut MsOut) {
         let want_v: u128 = cs.iter().map(|b| b.to_bytes_with_nul().len() as u128).sum();
         out.stats.eval("C08", mix(&[973, cs.len() as u64]));
         if <CStr>::value_size_sum_iter(cs.iter().map(|b| &**b)) as u128 != want_v || <CStr>::value_size_sum_exact_size_iter(cs.iter().map(|b| &**b)) as u128 != want_v { viol(out, "C08", "bulk-unsized:CStr", "CStr bulk helpers disagree with element-wise sums".to_string()); }
+        // OsStr only has a value size (it is what an OsString's buffer holds)
+        let os: Vec<OsString> = (0..r.usize_below(7)).map(|_| Build::build(&mut r, 1)).collect();
+        let want_v: u128 = os.iter().map(|b| b.as_os_str().len() as u128).sum();
+        out.stats.eval("C08", mix(&[974, os.len() as u64]));
+        if <std::ffi::OsStr>::value_size_sum_iter(os.iter().map(|b| b.as_os_str())) as u128 != want_v || <std::ffi::OsStr>::value_size_sum_exact_size_iter(os.iter().map(|b| b.as_os_str())) as u128 != want_v || os.iter().any(|b| b.as_os_str().value_size() != b.len()) { viol(out, "C08", "bulk-unsized:OsStr", "OsStr value sizes disagree with the byte lengths".to_string()); }
     }
 }
 
